@@ -14,6 +14,15 @@
           RenameKey  the key of entry i spelled in another letter case.  Case-sensitive closed mapping: it is a
                      foreign key now (reported at the key).  Case-insensitive mapping: the same key, nothing may
                      change (drift-only: the property does not say so)
+          KindKey    a key of the key set that is not available in a node of THIS kind (call-only keys in a
+                     steps job, steps-only keys in a call job, run-only keys in an action step and vice versa;
+                     Schema `kinds`), in every value form its schema allows (scalar / sequence / mapping, minimal
+                     well-typed value, and no value at all), first / in the middle / last among its siblings.
+                     Predicted: a syntax-check diagnostic of class key-conflict at the key, its value or a
+                     sibling key of the same node (which of them is drift-only).
+          EventKey   into the mapping of an event of Schema!EventDeny: a key k1 not available for that event together
+                     with another absent webhook key k2; reference = the document with k2 only.  Predicted: a new
+                     `events` diagnostic at the event name or at k1, and every diagnostic of the reference stays
           DupKey     a copy of entry i (key in the same / UPPER / Mixed case, value copied) directly
                      after entry i or at the end of the mapping
           DropKey    removal of a key without which no mandatory alternative is satisfied; also together with
@@ -264,6 +273,61 @@ RenameVector(r, i, case, sens) ==
                    siblings |-> FALSE, same |-> FALSE]
              ELSE [at |-> "entrykey", cls |-> "none", siblings |-> FALSE, same |-> TRUE]]
 
+\* ---- minimal well-typed values of a schema node, one per form
+ScalarText(dom) ==
+  CASE dom = "inherit" -> "inherit" [] dom = "bool" -> "true" [] dom \in {"int", "float"} -> "1"
+    [] dom = "expr" -> AnyExpr [] dom = "permission" -> "read" [] dom = "input-type" -> "string"
+    [] dom = "cron" -> "0 0 1 1 *" [] dom = "shell" -> "bash" [] OTHER -> "x"
+FormsOf(t) ==
+  CASE t.k = "alt" -> {f \in {"s", "q", "m"} : (IF f = "s" THEN t.s ELSE IF f = "q" THEN t.q ELSE t.m).k # "none"}
+    [] t.k = "scalar" -> {"s"} [] t.k = "seq" -> {"q"} [] t.k = "map" -> {"m"} [] OTHER -> {"s"}
+RECURSIVE MinValue(_, _)
+MinValue(t, form) ==
+  LET r == IF t.k = "alt" THEN (IF form = "s" THEN t.s ELSE IF form = "q" THEN t.q ELSE t.m) ELSE t IN
+  CASE r.k = "scalar" -> [k |-> "s", v |-> ScalarText(r.dom), st |-> "auto"]
+    [] r.k = "raw" -> [k |-> "s", v |-> "x", st |-> ""]
+    [] r.k = "seq" -> [k |-> "q", e |-> <<MinValue(r.elem, CHOOSE f \in FormsOf(r.elem) : TRUE)>>]
+    [] r.k = "map" ->
+         LET need == IF r.req # <<>> THEN r.req[1] ELSE {}
+             idx == {i \in DOMAIN r.fields : r.fields[i].key \in need}
+             pick == IF idx # {} THEN idx
+                     ELSE IF r.open.k # "none" THEN {} ELSE {CHOOSE i \in DOMAIN r.fields : TRUE}
+             RECURSIVE Ents(_)
+             Ents(i) == IF i > Len(r.fields) THEN <<>>
+                        ELSE (IF i \in pick
+                                THEN << <<r.fields[i].key,
+                                          MinValue(r.fields[i].t, CHOOSE f \in FormsOf(r.fields[i].t) : TRUE)>> >>
+                                ELSE <<>>) \o Ents(i + 1) IN
+         [k |-> "m", p |-> IF pick = {} THEN << <<"k", MinValue(r.open, CHOOSE f \in FormsOf(r.open) : TRUE)>> >>
+                           ELSE Ents(1)]
+NullValue == [k |-> "s", v |-> "", st |-> "null"]
+FieldByKey(r, key) == r.fields[CHOOSE i \in DOMAIN r.fields : r.fields[i].key = key]
+
+ActiveKinds(r) == {i \in DOMAIN r.kinds : r.kinds[i].when \cap KeysOf(Here) # {}}
+KindVector(r, kd, key, form, where, at, sens) ==
+  LET so == SOps(r, sens)
+      val == IF form = "null" THEN NullValue ELSE MinValue(FieldByKey(r, key).t, form) IN
+  [prop |-> "C13", h |-> C13Common(r, "KindKey", sens), where |-> where, key |-> key, case |-> "same",
+   kind |-> r.kinds[kd].name, form |-> form, n |-> NKids(Here),
+   refops |-> so,
+   ops |-> so \o <<[op |-> "ins", path |-> path, at |-> at, key |-> key, case |-> "", val |-> val]>>,
+   exp |-> [at |-> "conflict", cls |-> "key-conflict", siblings |-> FALSE,
+            soft |-> key \in r.kinds[kd].soft]]
+
+\* event mapping (entry of `on`): k1 not available for this event, k2 another absent webhook key
+EventVector(r, hook, k1, f1, k2, first, sens) ==
+  LET so == SOps(r, sens)
+      n == NKids(Here)
+      ins2 == [op |-> "ins", path |-> path, at |-> n + 1, key |-> k2, case |-> "", new |-> "sib",
+               val |-> MinValue(FieldByKey(r, k2).t, CHOOSE f \in FormsOf(FieldByKey(r, k2).t) : TRUE)]
+      ins1 == [op |-> "ins", path |-> path, at |-> IF first THEN 1 ELSE n + 1, key |-> k1, case |-> "", new |-> "new",
+               val |-> MinValue(FieldByKey(r, k1).t, f1)] IN
+  [prop |-> "C13", h |-> C13Common(r, "EventKey", sens), where |-> IF first THEN "first" ELSE "last", key |-> k1,
+   key2 |-> k2, case |-> "same", hook |-> hook, form |-> f1,
+   refops |-> so \o <<ins2>>,
+   ops |-> so \o (IF first THEN <<ins1, ins2>> ELSE <<ins2, ins1>>),
+   exp |-> [at |-> "event", cls |-> "rule:events", siblings |-> TRUE]]
+
 \* two mandatory keys of the satisfied alternative dropped at once: both must be reported
 BreaksPair(r, k1, k2) == /\ k1 \in ReqKeys(r, Here) /\ k2 \in ReqKeys(r, Here)
                          /\ ~\E a \in DOMAIN r.req : r.req[a] \subseteq (KeysOf(Here) \ {k1, k2})
@@ -298,6 +362,19 @@ EmitC13 ==
                /\ ~(r.cs /\ ~Closed(r))      \* `on`: another spelling is another event
                /\ r.cs => IsFixedKey(r, Here.p[i][1])
                /\ tc' = ToJson(RenameVector(r, i, case, sens))
+       \/ \E kd \in ActiveKinds(r), w \in {"first", "middle", "last"} :
+            \E key \in (r.kinds[kd].deny \cup r.kinds[kd].soft) \ KeysOf(Here) :
+              \E form \in FormsOf(FieldByKey(r, key).t) \cup {"null"} :
+               /\ w = "middle" => n >= 2
+               /\ tc' = ToJson(KindVector(r, kd, key, form, w, CASE w = "first" -> 1 [] w = "middle" -> (n \div 2) + 1
+                                                                    [] w = "last" -> n + 1, sens))
+       \/ /\ r.sec = "webhook" /\ path # <<>>
+          /\ LET hook == NodeAt(Doc, Front(path)).p[path[Len(path)]][1] IN
+             /\ hook \in DOMAIN EventDeny
+             /\ \E k1 \in EventDeny[hook] \ KeysOf(Here), first \in BOOLEAN :
+                  \E k2 \in ({r.fields[i].key : i \in DOMAIN r.fields} \ KeysOf(Here)) \ {k1},
+                     f1 \in FormsOf(FieldByKey(r, k1).t) :
+                    tc' = ToJson(EventVector(r, hook, k1, f1, k2, first, sens))
        \/ \E i \in 1 .. n :
                /\ Breaks(r, Here.p[i][1])
                /\ tc' = ToJson(DropVector(r, i, sens))
